@@ -40,7 +40,8 @@ func init() { register("C11", "other", checkC11) }
 // Abs on the sign mask - Lts (checkLts: eight cases of top bits and unsigned
 // order) and the sign mask (C11.signmask: all 255 widths) are decided
 // themselves - and SignedMul on SignExtend (C11.signext: per bit in three
-// position classes). NOT decided: SignedDiv, SignedMod, RshA, MaskBits (their meaning depends on
+// position classes); MaskBits on the bit mask (C11.mask: every width, every
+// count up to 72 beyond the largest width). NOT decided: SignedDiv, SignedMod, RshA (their meaning depends on
 // sign bits and masks that vary with the width), and the meaning of the IR
 // operators themselves (C10).
 func checkC11(c *Ctx) {
@@ -347,7 +348,133 @@ func checkC11(c *Ctx) {
 	} else {
 		c.Undecide("C11.signmask: %s.signBitMask not found", tpkg)
 	}
-	c.RequireCount("C11 gadgets decided", n, 21)
+	// ---- the bit mask of MaskBits: counts and widths are finite sets, so bitMask
+	// is walked (E7, typed integer arithmetic) for every width and every count
+	// from 0 to 72 positions beyond the largest width (relative to Sub, kept as a call)
+	c.Rule("C11.mask", "bitMask(bits, w), walked for every width 1..MaxWidth and every count 0..8*MaxWidth+72, returns either a constant of width w that fits the width and equals 2^min(bits,8w)-1, or Sub(Lsh(1, bits), 1) at width w (Sub decided by C11.ring; a shift by 8w or more is zero by C10, the difference all ones); MaskBits is BitAnd (C11.bitwise) of its operand and that mask at the same width")
+	if bm := c.Prog.Func(tpkg + ".bitMask"); bm != nil && bm.Blocks != nil && len(bm.Params) == 2 {
+		n++
+		maxW := int64(255)
+		if v, ok := absint.ConstByName(ep, "MaxWidth"); ok {
+			maxW = int64(v)
+		}
+		lshOp := int64(-1)
+		for k, name := range ops {
+			if name == "Lsh" {
+				lshOp = k
+			}
+		}
+		subFn := c.Prog.Func(tpkg + ".Sub")
+		isOne := func(v ssa.Value) bool {
+			if ld, isLd := Unwrap(v).(*ssa.UnOp); isLd {
+				if gl, isG := ld.X.(*ssa.Global); isG && gl.Name() == "One" {
+					return true
+				}
+			}
+			return false
+		}
+		bad, walked := "", 0
+		for w := int64(1); w <= maxW && bad == ""; w++ {
+			for bits := int64(0); bits <= 8*maxW+72 && bad == ""; bits++ {
+				var vl *Valuation
+				form, okForm := "", false
+				vl = &Valuation{
+					Typed: true,
+					Enter: func(g *ssa.Function) bool {
+						return g != nil && g.Blocks != nil && PkgPathOf(g) == ExprPkg && NameOf(g) == "Bits"
+					},
+					Int: func(v ssa.Value) (int64, bool) {
+						switch v {
+						case ssa.Value(bm.Params[0]):
+							return bits, true
+						case ssa.Value(bm.Params[1]):
+							return w, true
+						}
+						return 0, false
+					},
+				}
+				var last *ssa.Call
+				vl.Visit = func(in ssa.Instruction) {
+					call, ok := in.(*ssa.Call)
+					if !ok || call.Call.StaticCallee() == nil {
+						return
+					}
+					g := Origin(call.Call.StaticCallee())
+					switch {
+					case FuncNameIs(g, "pkg/expr.NewConstUint") && len(call.Call.Args) == 2:
+						k, ok1 := vl.EvalInt(call.Call.Args[0], nil)
+						ww, ok2 := vl.EvalInt(call.Call.Args[1], nil)
+						last, form = call, "constant"
+						want := ^uint64(0)
+						if bits < 64 {
+							want = uint64(1)<<uint(bits) - 1
+						}
+						// NewConstUint panics on a value beyond the width: the count must fit it
+						okForm = ok1 && ok2 && ww == w && bits <= 64 && bits <= 8*w && uint64(k) == want
+					case subFn != nil && g == Origin(subFn) && len(call.Call.Args) == 3:
+						ww, ok2 := vl.EvalInt(call.Call.Args[2], nil)
+						sh, isSh := Unwrap(vl.Root(call.Call.Args[0])).(*ssa.Call)
+						okSh := false
+						if isSh && sh.Call.StaticCallee() != nil && FuncNameIs(Origin(sh.Call.StaticCallee()), "pkg/expr.NewBinary") && len(sh.Call.Args) == 4 {
+							op, ok0 := ConstInt(sh.Call.Args[0])
+							sw, ok3 := vl.EvalInt(sh.Call.Args[3], nil)
+							amt := int64(-1)
+							if sc, isC := Unwrap(vl.Root(sh.Call.Args[2])).(*ssa.Call); isC && sc.Call.StaticCallee() != nil && FuncNameIs(Origin(sc.Call.StaticCallee()), "pkg/expr.ConstFromUint") {
+								amt, _ = vl.EvalInt(sc.Call.Args[0], nil)
+							}
+							okSh = ok0 && op == lshOp && ok3 && sw == w && isOne(sh.Call.Args[1]) && amt == bits
+						}
+						last, form = call, "difference"
+						okForm = ok2 && ww == w && okSh && isOne(call.Call.Args[1])
+					}
+				}
+				res := vl.Walk(bm.Blocks[0], nil)
+				ret, isRet := res.End.(*ssa.Return)
+				switch {
+				case !res.OK:
+					bad = fmt.Sprintf("width %d, count %d: the function cannot be followed: %s", w, bits, res.Why)
+				case !isRet:
+					bad = fmt.Sprintf("width %d, count %d: the function panics", w, bits)
+				case last == nil || Unwrap(vl.Root(ret.Results[0])) != ssa.Value(last):
+					bad = fmt.Sprintf("width %d, count %d: the result is not a constant or a difference built here", w, bits)
+				case !okForm:
+					bad = fmt.Sprintf("width %d, count %d: the %s built is not 2^min(%d,%d)-1 at width %d%s", w, bits, form, bits, 8*w, w, map[bool]string{true: " (a constant beyond the width makes NewConstUint panic)"}[form == "constant" && bits > 8*w])
+				default:
+					walked++
+				}
+			}
+		}
+		c.Oblige("C11.mask", "pkg/expr/exprtools.bitMask", c.Prog.FuncPos(bm), bad == "", bad)
+		c.Saw("mask_walks", fmt.Sprintf("%d", walked))
+		// MaskBits: BitAnd(e, bitMask(cnt, w), w)
+		if mb := c.Prog.Func(tpkg + ".MaskBits"); mb != nil && mb.Blocks != nil && len(mb.Params) == 3 {
+			n++
+			bad := "the function does not return BitAnd(e, bitMask(cnt, w), w) of its own parameters"
+			andFn := c.Prog.Func(tpkg + ".BitAnd")
+			if len(mb.Blocks) == 1 && andFn != nil {
+				if ret, ok := mb.Blocks[0].Instrs[len(mb.Blocks[0].Instrs)-1].(*ssa.Return); ok && len(ret.Results) == 1 {
+					if ac, ok := Unwrap(ret.Results[0]).(*ssa.Call); ok && ac.Call.StaticCallee() != nil && Origin(ac.Call.StaticCallee()) == Origin(andFn) && len(ac.Call.Args) == 3 {
+						isMask := func(v ssa.Value) bool {
+							mc, ok := Unwrap(v).(*ssa.Call)
+							return ok && mc.Call.StaticCallee() != nil && Origin(mc.Call.StaticCallee()) == Origin(bm) && len(mc.Call.Args) == 2 &&
+								Unwrap(mc.Call.Args[0]) == ssa.Value(mb.Params[1]) && Unwrap(mc.Call.Args[1]) == ssa.Value(mb.Params[2])
+						}
+						isE := func(v ssa.Value) bool { return Unwrap(v) == ssa.Value(mb.Params[0]) }
+						a0, a1 := ac.Call.Args[0], ac.Call.Args[1]
+						if ((isE(a0) && isMask(a1)) || (isE(a1) && isMask(a0))) && Unwrap(ac.Call.Args[2]) == ssa.Value(mb.Params[2]) {
+							bad = ""
+						}
+					}
+				}
+			}
+			c.Oblige("C11.mask", "pkg/expr/exprtools.MaskBits", c.Prog.FuncPos(mb), bad == "", bad)
+		} else {
+			c.Undecide("C11.mask: %s.MaskBits not found", tpkg)
+		}
+	} else {
+		c.Undecide("C11.mask: %s.bitMask not found", tpkg)
+	}
+	c.RequireCount("C11 gadgets decided", n, 23)
 }
 
 func ruleOfGadget(name string) string {
